@@ -171,6 +171,35 @@ def _containment_from_quantifier(n: ast.Call) -> ast.expr | None:
             and isinstance(n.args[0], (ast.GeneratorExp, ast.ListComp)) and len(n.args[0].generators) == 1):
         return None
     g = n.args[0].generators[0]
+    if not g.ifs and not g.is_async and isinstance(g.target, ast.Name) and isinstance(g.iter, ast.Call) \
+            and isinstance(g.iter.func, ast.Attribute) and g.iter.func.attr == "items" and not g.iter.args:
+        # all(item == x or item in M.items() for item in A.items())  ->  A.items() <= (M.items() | {x})
+        I = g.target.id
+        elt = n.args[0].elt
+        parts = elt.values if isinstance(elt, ast.BoolOp) and isinstance(elt.op, ast.Or) else [elt]
+        items_, singles_ = [], []
+        for p_ in parts:
+            if isinstance(p_, ast.Compare) and len(p_.ops) == 1 and isinstance(p_.left, ast.Name) and p_.left.id == I \
+                    and not any(isinstance(y, ast.Name) and y.id == I for y in ast.walk(p_.comparators[0])):
+                if isinstance(p_.ops[0], ast.Eq):
+                    singles_.append(p_.comparators[0])
+                    continue
+                if isinstance(p_.ops[0], ast.In) and isinstance(p_.comparators[0], ast.Call) and isinstance(p_.comparators[0].func, ast.Attribute) \
+                        and p_.comparators[0].func.attr == "items" and not p_.comparators[0].args:
+                    items_.append(p_.comparators[0])
+                    continue
+            return None
+        if not items_:
+            return None
+        rhs_: ast.expr = items_[0]
+        for x_ in items_[1:]:
+            rhs_ = ast.BinOp(rhs_, ast.BitOr(), x_)
+        if singles_:
+            rhs_ = ast.BinOp(rhs_, ast.BitOr(), ast.Set(singles_))
+        out_ = ast.Compare(g.iter, [ast.LtE()], [rhs_])
+        for y in ast.walk(out_):
+            ast.copy_location(y, n)
+        return out_
     if g.ifs or g.is_async or not (isinstance(g.target, ast.Tuple) and len(g.target.elts) == 2
                                    and all(isinstance(t, ast.Name) for t in g.target.elts)):
         return None
@@ -528,6 +557,27 @@ class _DropAnn(ast.NodeTransformer):
                 return out
         return n
 
+    def visit_Compare(self, n):
+        self.generic_visit(n)
+        # len(G.mk_update_function(v).support_set()) > 0  ->  not (F.is_true() or F.is_false())   (a BDD has an empty support
+        # exactly when it is constant); == 0 the other way round
+        if self.depth > 0 and len(n.ops) == 1 and isinstance(n.left, ast.Call) and isinstance(n.left.func, ast.Name) and n.left.func.id == "len" \
+                and len(n.left.args) == 1 and isinstance(n.comparators[0], ast.Constant) and n.comparators[0].value == 0 \
+                and isinstance(n.ops[0], (ast.Gt, ast.NotEq, ast.Eq)):
+            c = n.left.args[0]
+            if isinstance(c, ast.Call) and isinstance(c.func, ast.Attribute) and c.func.attr == "support_set" and not c.args \
+                    and isinstance(c.func.value, ast.Call) and isinstance(c.func.value.func, ast.Attribute) \
+                    and c.func.value.func.attr == "mk_update_function":
+                import copy as _copy
+                F = c.func.value
+                const = ast.BoolOp(ast.Or(), [ast.Call(ast.Attribute(_copy.deepcopy(F), "is_true", ast.Load()), [], []),
+                                              ast.Call(ast.Attribute(_copy.deepcopy(F), "is_false", ast.Load()), [], [])])
+                out = const if isinstance(n.ops[0], ast.Eq) else ast.UnaryOp(ast.Not(), const)
+                for y in ast.walk(out):
+                    ast.copy_location(y, n)
+                return out
+        return n
+
     def visit_Dict(self, n):
         # {**a, **b}  ->  a | b      (the union of two mappings, later entries win in both spellings)
         self.generic_visit(n)
@@ -655,6 +705,60 @@ def _count(what: str, n) -> None:
     n = int(n) if not isinstance(n, bool) else (1 if n else 0)
     if n:
         LOCAL_REWRITES[what] = LOCAL_REWRITES.get(what, 0) + n
+
+
+def _while_true_flag(fn: ast.FunctionDef) -> int:
+    """`while True: F = False; BODY; if not F: return E` (no `continue` at this level, F only ever raised in BODY)
+        ->  `F = True; while F: F = False; BODY` followed by `return E`: the fixpoint loop with its flag in the condition."""
+    count = 0
+
+    def own_level(stmts):
+        for st in stmts:
+            yield st
+            if isinstance(st, (ast.For, ast.While, ast.FunctionDef, ast.ClassDef)):
+                continue
+            for fld in ("body", "orelse", "finalbody"):
+                sub = getattr(st, fld, None)
+                if isinstance(sub, list) and sub and isinstance(sub[0], ast.stmt):
+                    yield from own_level(sub)
+            for h in getattr(st, "handlers", []) or []:
+                yield from own_level(h.body)
+
+    def block(body: list) -> None:
+        nonlocal count
+        for i, st in enumerate(list(body)):
+            if isinstance(st, ast.While) and isinstance(st.test, ast.Constant) and st.test.value is True and not st.orelse and len(st.body) >= 3:
+                first, last = st.body[0], st.body[-1]
+                if isinstance(first, ast.Assign) and len(first.targets) == 1 and isinstance(first.targets[0], ast.Name) \
+                        and isinstance(first.value, ast.Constant) and first.value.value is False \
+                        and isinstance(last, ast.If) and not last.orelse and len(last.body) == 1 and isinstance(last.body[0], (ast.Return, ast.Break)) \
+                        and isinstance(last.test, ast.UnaryOp) and isinstance(last.test.op, ast.Not) and isinstance(last.test.operand, ast.Name) \
+                        and last.test.operand.id == first.targets[0].id:
+                    F = first.targets[0].id
+                    mid = st.body[1:-1]
+                    if any(isinstance(y, (ast.Continue, ast.Break)) for y in own_level(mid)):
+                        continue
+                    stores = [y for m in mid for y in ast.walk(m) if isinstance(y, ast.Assign) and any(isinstance(t, ast.Name) and t.id == F for t in y.targets)]
+                    if not stores or not all(isinstance(y.value, ast.Constant) and y.value.value is True for y in stores):
+                        continue
+                    init = ast.copy_location(ast.Assign([ast.Name(F, ast.Store())], ast.Constant(True)), st)
+                    new = ast.copy_location(ast.While(ast.Name(F, ast.Load()), [first] + mid, []), st)
+                    tail = [last.body[0]] if isinstance(last.body[0], ast.Return) else []
+                    k = body.index(st)
+                    body[k:k + 1] = [init, new] + tail
+                    count += 1
+        for st in body:
+            if not isinstance(st, (ast.FunctionDef, ast.ClassDef)):
+                for fld in ("body", "orelse", "finalbody"):
+                    sub = getattr(st, fld, None)
+                    if isinstance(sub, list) and sub and isinstance(sub[0], ast.stmt):
+                        block(sub)
+                for h in getattr(st, "handlers", []) or []:
+                    block(h.body)
+    block(fn.body)
+    if count:
+        ast.fix_missing_locations(fn)
+    return count
 
 
 def _split_joined_adds(fn: ast.FunctionDef) -> int:
@@ -894,6 +998,7 @@ def _drop_local_annotations(tree: ast.Module) -> None:
         if isinstance(x, ast.FunctionDef):
             _count("complementary_ifs_merged", _merge_complementary_ifs(x))
             _count("joined_program_texts_split", _split_joined_adds(x))
+            _count("while_true_fixpoints", _while_true_flag(x))
             _count("dag_view_aliases", _inline_dag_view_aliases(x))
             _count("quantifiers_over_literal_tuples", _unroll_literal_quantifiers(x))
     for x in ast.walk(tree):
@@ -2102,6 +2207,10 @@ def _normalise_namedtuples(trees: list[ast.Module]) -> None:
                         vals[f_] = defaults[nm][f_]
                 if set(vals) == set(fs):
                     return ast.copy_location(ast.Tuple([vals[f_] for f_ in fs], ast.Load()), n)
+            # Record(*f(..)): the record made from a tuple of the same arity is that tuple
+            if nm in classes and len(n.args) == 1 and not n.keywords and isinstance(n.args[0], ast.Starred) \
+                    and isinstance(n.args[0].value, ast.Call):
+                return n.args[0].value
             return n
 
         def visit_Attribute(self, n: ast.Attribute):
